@@ -27,6 +27,7 @@ CTCS = [
     [('EQUIVALENCE', 'F0', ('NOT', 'F1')), ('REQUIRES', 'F1', 'F0'), ('EXCLUDES', 'F0', 'F1')],
     ['F1', ('NOT', 'F0'), ('NOT', ('AND', 'F0', ('OR', 'F1', 'F0')))],
     [('EXCLUDES', ('AND', 'F0', 'F1'), ('NOT', 'F1')), ('IMPLIES', ('EQUIVALENCE', 'F0', 'F1'), 'F1')],
+    [('IMPLIES', 'F0', 'F1'), ('IMPLIES', 'F0', 'F1'), ('EXCLUDES', 'F1', 'F0'), ('OR', ('NOT', 'F0'), 'F1'), ('EXCLUDES', 'F1', 'F0')],      # repeated constraints (each must survive)
 ]
 
 
@@ -67,15 +68,7 @@ def make(shape, cards, names=None, abstract=None, ctc_code=0):
 
 def read_tree(tree: ElementTree.ElementTree) -> FeatureModel:
     """The body of FeatureIDEReader._read_feature_model without the file parser (stub boundary)."""
-    rd = FeatureIDEReader('unused')
-    root = None
-    ctcs = []
-    for child in tree.getroot():
-        if child.tag == FeatureIDEReader.TAG_STRUCT:
-            root, _ = rd._read_features(child, None)
-        elif child.tag == FeatureIDEReader.TAG_CONSTRAINTS:
-            ctcs.extend(rd._read_constraints(child))
-    return FeatureModel(root, ctcs)
+    return rt.xml_transform(FeatureIDEReader, tree)
 
 
 def etree_desc(elem):
@@ -262,7 +255,12 @@ def batches(tier, seed):
     nt = len(rt.ctc_family(FRAG_OPS, ['F0', 'F1', 'F2'], full))
     st = nt // 12 + 1
     b += [('batch_trees', [lo, lo + st, full]) for lo in range(0, nt, st)]
+    b.append(('batch_dups', []))
     return b
+
+
+def _noop():
+    pass
 
 
 def info(tier):
@@ -276,3 +274,16 @@ def info(tier):
                      'bounds': {'shapes': 'N<=%d within the fragment' % (4 if tier == 'quick' else 5), 'name_len': 3 if tier == 'quick' else 4},
                      'stubs': ['ElementTree.tostring/minidom.parseString/ElementTree.parse']},
     }
+
+
+def replay_dups(k):
+    """near-duplicate constraints (repeated literally / differing by letter case of a name) through the real files."""
+    m = rt.dup_models()[k]
+    try:
+        return ['%s | constraints %r' % (b[:400], rt.DUP_CTC_SETS[k]) for b in file_roundtrip(m)]
+    except Exception as exc:
+        return ['round trip raises %s: %s (constraints %r)' % (type(exc).__name__, exc, rt.DUP_CTC_SETS[k])]
+
+
+def batch_dups():
+    return rt.dup_batch(__name__, 'featureide-duplicate-constraints')
